@@ -136,7 +136,7 @@ pub fn run_case(case: &Case) -> Outcome {
                     *out.faults_fired.entry(format!("io_{}", e.kind)).or_default() += 1;
                 }
             }
-            let hard = s.history.iter().any(|e| e.kind == "error");
+            let hard = s.history.iter().any(|e| matches!(e.kind, "error" | "wouldblock" | "zero"));
             out.sink_text = String::from_utf8_lossy(&s.bytes).to_string();
             out.history = s.history;
             match res {
@@ -228,6 +228,11 @@ fn cases_for_value(seed: u64, i: u64, thorough: bool) -> Vec<Case> {
         cases.push(with(SinkSpec::Io(IoPlan::At(vec![(k, IoAct::Error)]))));
         cases.push(with(SinkSpec::Io(IoPlan::At(vec![(k, IoAct::Interrupted)]))));
         cases.push(with(SinkSpec::Io(IoPlan::At(vec![(k, IoAct::Short(1))]))));
+        if (k + i as usize) % 2 == 0 {
+            cases.push(with(SinkSpec::Io(IoPlan::At(vec![(k, IoAct::WouldBlock)]))));
+        } else {
+            cases.push(with(SinkSpec::Io(IoPlan::At(vec![(k, IoAct::Zero)]))));
+        }
     }
     // thorough: every pair of rejected calls, for renderings short enough (exhaustive double-fault sweep)
     if thorough && n <= 40 {
@@ -417,6 +422,8 @@ fn minimise(mut case: Case, class: &Class, known_keys: &[String]) -> (Case, Outc
                 "short" => Some((i, IoAct::Short(e.taken))),
                 "eintr" => Some((i, IoAct::Interrupted)),
                 "error" => Some((i, IoAct::Error)),
+                "wouldblock" => Some((i, IoAct::WouldBlock)),
+                "zero" => Some((i, IoAct::Zero)),
                 _ => None,
             })
             .collect();
@@ -804,7 +811,7 @@ fn main() {
     violations = unknown_keys.len() as i32;
     let wall = t0.elapsed().as_secs_f64();
     let rule = "one case = (type, seeded value with presence pattern and dimensions, sink kind, fault plan) executed against the real Display code; \
-for every value the fault-free case, EVERY single-fault position for renderings of at most 320 sink calls - for longer ones the first and last 16 calls and a seeded stride in between - (fmt: reject-once and reject-from at each write_str call; io: error, EINTR, 1-byte short write at each write call) \
+for every value the fault-free case, EVERY single-fault position for renderings of at most 320 sink calls - for longer ones the first and last 16 calls and a seeded stride in between - (fmt: reject-once and reject-from at each write_str call; io: error, EINTR, 1-byte short write, and WouldBlock or a zero-length write at each write call) \
 and seeded multi-fault plans (capacity, random rejection, fault sets, mixed io faults, all-short) are run; the thorough tier adds EVERY pair of rejected write_str calls for renderings of at most 40 calls. distinct_nontrivial = number of distinct histories \
 (type, presence, dimensions, sink kind, per-call offered/accepted bytes and verdict, return value) among cases in which at least one injected fault actually fired";
     let ev = serde_json::json!({
